@@ -62,6 +62,16 @@ fn exec_cfg(text: &str, both: bool, out: &mut Out) -> Result<Exec, String> {
             flat.insert(key, v);
         }
     }
+    // the indicator the program always reports with the results: renewable share of the DHW demand (number, or
+    // that it is not computable; the text of the message may name ids, which the rewritings change)
+    match cteepbd::cte::fraccion_renovable_acs_nrb(&ep) {
+        Ok(v) => {
+            flat.insert("dhw.fraction".to_string(), crate::tree::Leaf::Num(v as f64));
+        }
+        Err(_) => {
+            flat.insert("dhw.not_computable".to_string(), crate::tree::Leaf::Int(1));
+        }
+    }
     let log = cteepbd::verif_hooks::take();
     let meta = c.meta.iter().map(|m| (m.key.clone(), m.value.clone())).collect();
     Ok(Exec { meta, flat, mag, ratios, ncomp: c.data.len(), orders: group_orders(&log) })
@@ -410,6 +420,8 @@ pub fn aux_env_letters() -> Vec<Letter> {
     al.push(Letter::one(d("ACS", &k(&[4, 4]))));
     al.push(Letter::one(u(Some(0), "CAL", "BIOMASA", &k(&[1, 1]))));
     al.push(Letter::one(u(Some(3), "REF", "RED1", &k(&[1, 1]))));
+    // a second nearby carrier for DHW (with the ambient heat letters: more nearby supply than the demand letter declares)
+    al.push(Letter::one(u(Some(3), "ACS", "RED1", &k(&[3, 3]))));
     al.push(Letter::many(vec![p(Some(4), "EL_COGEN", &k(&[3, 3])), u(Some(4), "COGEN", "GASNATURAL", &k(&[3, 3])), u(Some(4), "COGEN", "BIOMASA", &k(&[3, 1])), u(Some(4), "COGEN", "RED1", &k(&[1, 1]))]));
     al
 }
